@@ -94,7 +94,7 @@ CLAIMED = {
 NA = {
     "C05": "round-trip equality quantifies over all trees x strings x layouts and is about values returned by an imperative lexer and a backtracking combinator ladder; the only shape-visible clauses (precedence ladder, escape pairs) are already pinned by parse::tests; no sound static argument in reach (DESIGN 5/C05)",
 }
-PENDING = "checker for this property is not built yet in this round (see DESIGN.md section 5); listed here until it is"
+PENDING = "not registered, nothing claimed: the checker designed in DESIGN.md section 5 is unfinished (rules still produce untriaged reports on the unchanged tree, see DESIGN.md section 10), and an unfinished check must not raise alarms; the technique does apply to the structural clauses named there"
 
 checks = []
 na = []
